@@ -60,6 +60,24 @@ def try_replay(rec):
         if 'bad_exit' in rp and out['exit'] in rp['bad_exit']:
             bad = True
         return dict(status='reproduced' if bad else 'not_reproduced', run=out)
+    if rp['kind'] == 'repl':
+        # lines typed at the interactive prompt (laythe without a script argument)
+        exe = build_laythe('debug')
+        if exe is None:
+            return dict(status='build_failed')
+        with tempfile.TemporaryDirectory(prefix='vreplay', dir=CACHE) as d:
+            try:
+                r = subprocess.run([exe], cwd=d, input=rp['stdin'].encode(), stdout=subprocess.PIPE, stderr=subprocess.PIPE, timeout=20)
+                out = dict(exit=r.returncode, stdout=r.stdout.decode(errors='replace'), stderr=r.stderr.decode(errors='replace'))
+            except subprocess.TimeoutExpired:
+                out = dict(exit=None, stdout='', stderr='timeout')
+        text = re.sub(r'laythe:> ?', '', out['stdout'])
+        bad = False
+        if 'expect_stdout_re' in rp and not re.search(rp['expect_stdout_re'], text):
+            bad = True
+        if 'bad_re' in rp and re.search(rp['bad_re'], text + out['stderr']):
+            bad = True
+        return dict(status='reproduced' if bad else 'not_reproduced', run=out)
     return dict(status='no_native_route')
 
 
